@@ -1639,6 +1639,79 @@ func c16genAll(c *h.Ctx, yield func(*h.Case)) {
 	op("load c16a %s", c16hex([]byte("counter")))
 	op("load c16a %s", c16hex([]byte("state")))
 	yield(cs)
+	// ---- values of 4 - 64 KiB, compressible and not (seeded change C16r7-B: Save compressed encodings of 4 KiB and
+	// more, Load inflated them again, LoadRaw handed out the compressed bytes): what LoadRaw returns is the
+	// type-tagged encoding of the saved value, whatever its size and content
+	bigValue := func(kind, n int) interface{} {
+		b := make([]byte, n)
+		switch kind % 4 {
+		case 0: // all zero
+		case 1: // a short period
+			for i := range b {
+				b[i] = "onet state "[i%11]
+			}
+		case 2: // incompressible
+			r.Read(b)
+		default: // half and half
+			r.Read(b[:n/2])
+		}
+		if kind%8 >= 4 {
+			return &C16Rec{I: int64(n), S: string(b[:n/2]), B: b[n/2:]}
+		}
+		return &C16Blob{B: b}
+	}
+	start("corpus-big-values")
+	op("start c16a,c16b")
+	op("save c16a %s %s", c16hex([]byte("state")), valueOf(bigValue(0, 4096)))
+	op("raw c16a %s", c16hex([]byte("state")))
+	op("load c16a %s", c16hex([]byte("state")))
+	op("save c16a %s %s", c16hex([]byte("log")), valueOf(bigValue(5, 20000)))
+	op("raw c16a %s", c16hex([]byte("log")))
+	op("save c16b %s %s", c16hex([]byte("state")), valueOf(bigValue(2, 5000)))
+	op("raw c16b %s", c16hex([]byte("state")))
+	op("save c16a %s %s", c16hex([]byte("state")), valueOf(&C16Rec{I: 1, S: "small again"}))
+	op("raw c16a %s", c16hex([]byte("state")))
+	op("stop")
+	op("start c16a,c16b")
+	op("raw c16a %s", c16hex([]byte("log")))
+	op("load c16a %s", c16hex([]byte("log")))
+	op("raw c16b %s", c16hex([]byte("state")))
+	op("load c16b %s", c16hex([]byte("state")))
+	yield(cs)
+	for i := 0; i < c.Pick(6, 60); i++ {
+		start("big-values")
+		svcs := subset(c16premise, 2)
+		op("start %s", strings.Join(svcs, ","))
+		sizes := []int{4095, 4096, 4097, 8192, 16000, 40000, 65536}
+		var saved [][2]string
+		for q := 0; q < 2+r.Intn(3); q++ {
+			svc, k := svcs[r.Intn(len(svcs))], c16hex(keyPool[r.Intn(len(keyPool))])
+			n := sizes[r.Intn(len(sizes))]
+			c.Count(fmt.Sprintf("big-value-size=%dKiB", (n+1023)/1024))
+			op("save %s %s %s", svc, k, valueOf(bigValue(r.Intn(8), n)))
+			saved = append(saved, [2]string{svc, k})
+			op("raw %s %s", svc, k)
+			if r.Intn(2) == 0 {
+				op("load %s %s", svc, k)
+			}
+			if r.Intn(4) == 0 {
+				op("save %s %s %s", svc, k, value())
+				op("raw %s %s", svc, k)
+			}
+		}
+		if r.Intn(2) == 0 {
+			op("stop")
+			op("start %s", strings.Join(svcs, ","))
+		} else {
+			op("crash")
+			op("start %s", strings.Join(svcs, ","))
+		}
+		for _, sk := range saved {
+			op("raw %s %s", sk[0], sk[1])
+			op("load %s %s", sk[0], sk[1])
+		}
+		yield(cs)
+	}
 	start("corpus-two-servers-one-directory")
 	keysOp(2)
 	op("startk 0 c16a,c16b keep")
